@@ -151,6 +151,16 @@ def gen(tier: str, seed: int) -> list[Case]:
             opts = osets[oi % 64]
             oi += 1
             cases.append(Case(cid=f"c01-{name}-o{oi % 64}", files=files, opts=opts, reach=REACH, step_budget=STEP_BUDGET_BASE + STEP_BUDGET_PER_BYTE * nbytes, meta={"kind": "other-generator:" + name.split(":")[0], "bytes": nbytes}))
+    # whole-package scenarios (layouts, encodings, import forms, hostile docstrings), each under its own option sets
+    from ..scenarios import PACKAGE_SCENARIOS
+
+    for feat, sfiles, optsets in PACKAGE_SCENARIOS:
+        if feat in gated:
+            continue
+        files = {"src/" + k: ({"hex": v.hex()} if isinstance(v, bytes) else v) for k, v in sfiles.items()}
+        nbytes = sum(len(v) for v in sfiles.values())
+        for opts in optsets:
+            cases.append(Case(cid=f"c01-scenario-{feat}-{len(cases)}", files=files, opts=list(opts), reach=REACH, step_budget=STEP_BUDGET_BASE + STEP_BUDGET_PER_BYTE * nbytes, meta={"kind": "scenario:" + feat, "bytes": nbytes}))
     # documented rejection, driven deliberately
     empties = {
         "only-init": {"src/pk/__init__.py": "X = 1\n"},
